@@ -94,20 +94,40 @@ func c14Exec(t *testing.T, p c14Part, prefix []int, expect []string, trace bool)
 		s.Trace = trace
 		var f *vFixture
 		s.Do(func() { f = newVFixture(p.conc, time.Hour) })
-		go f.d.Run(time.Now())
-		s.Drive()
-		time.Sleep(time.Second)
-		s.Drive() // dispatcher running, workers parked on the provider channel
-		vs := c14Versions(p.kind, time.Now())
+		var vs []*alert.Alert
+		var done chan struct{}
+		var left int
+		if kind, ok := strings.CutPrefix(p.kind, "pre-"); ok {
+			// The first version is already stored when the dispatcher starts (process start with stored
+			// alerts, every config reload); the later ones are submitted while it loads the initial set.
+			time.Sleep(time.Second)
+			vs = c14Versions(kind, time.Now())
+			s.Do(func() { f.alerts.Put(context.Background(), vs[0]) })
+			s.SetBranching(true)
+			go f.d.Run(time.Now())
+			done = s.Go(func() {
+				for _, v := range vs[1:] {
+					f.alerts.Put(context.Background(), v)
+				}
+			})
+			left = s.Drive()
+			s.SetBranching(false)
+		} else {
+			go f.d.Run(time.Now())
+			s.Drive()
+			time.Sleep(time.Second)
+			s.Drive() // dispatcher running, workers parked on the provider channel
+			vs = c14Versions(p.kind, time.Now())
 
-		s.SetBranching(true)
-		done := s.Go(func() {
-			for _, v := range vs {
-				f.alerts.Put(context.Background(), v)
-			}
-		})
-		left := s.Drive()
-		s.SetBranching(false)
+			s.SetBranching(true)
+			done = s.Go(func() {
+				for _, v := range vs {
+					f.alerts.Put(context.Background(), v)
+				}
+			})
+			left = s.Drive()
+			s.SetBranching(false)
+		}
 		select {
 		case <-done:
 		default:
@@ -198,18 +218,21 @@ func TestVerifC14(t *testing.T) {
 	type job struct {
 		p     c14Part
 		bound int
+		delay int // > 0: bound on deviations of any kind (the pre-* parts start a dozen threads at once)
 	}
 	var jobs []job
 	if thorough {
 		for _, k := range []string{"refresh", "resolve", "refire"} {
-			jobs = append(jobs, job{c14Part{k, 0}, -1}, job{c14Part{k, 1}, -1})
+			jobs = append(jobs, job{c14Part{k, 0}, -1, 0}, job{c14Part{k, 1}, -1, 0})
 		}
-		jobs = append(jobs, job{c14Part{"refresh3", 0}, 3}, job{c14Part{"refresh", 4}, 3}, job{c14Part{"resolve", 4}, 3}, job{c14Part{"two", 0}, 3}, job{c14Part{"two", 4}, 2}, job{c14Part{"backlog", 0}, 2})
+		jobs = append(jobs, job{c14Part{"refresh3", 0}, 3, 0}, job{c14Part{"refresh", 4}, 3, 0}, job{c14Part{"resolve", 4}, 3, 0}, job{c14Part{"two", 0}, 3, 0}, job{c14Part{"two", 4}, 2, 0}, job{c14Part{"backlog", 0}, 2, 0},
+			job{c14Part{"pre-resolve", 0}, -1, 3}, job{c14Part{"pre-refresh3", 0}, -1, 3}, job{c14Part{"pre-refire", 1}, -1, 3})
 	} else {
 		for _, k := range []string{"refresh", "resolve", "refire"} {
-			jobs = append(jobs, job{c14Part{k, 0}, 2}, job{c14Part{k, 1}, 2})
+			jobs = append(jobs, job{c14Part{k, 0}, 2, 0}, job{c14Part{k, 1}, 2, 0})
 		}
-		jobs = append(jobs, job{c14Part{"refresh3", 0}, 1}, job{c14Part{"refresh", 4}, 2}, job{c14Part{"two", 0}, 2}, job{c14Part{"backlog", 0}, 1})
+		jobs = append(jobs, job{c14Part{"refresh3", 0}, 1, 0}, job{c14Part{"refresh", 4}, 2, 0}, job{c14Part{"two", 0}, 2, 0}, job{c14Part{"backlog", 0}, 1, 0},
+			job{c14Part{"pre-resolve", 0}, -1, 2}, job{c14Part{"pre-refresh3", 1}, -1, 2})
 	}
 	if rp := rep.ReplaySpec(); rp != nil {
 		part, _ := rp["part"].(string)
@@ -234,7 +257,7 @@ func TestVerifC14(t *testing.T) {
 	deadline := rep.Deadline(10 * time.Minute)
 	for _, j := range jobs {
 		R := rep.New("C14", j.p.name())
-		e := &sched.Explorer{Bound: j.bound, Shard: shard, NShards: nsh, ShardDepth: 2, Deadline: deadline}
+		e := &sched.Explorer{Bound: j.bound, Delay: j.delay, Shard: shard, NShards: nsh, ShardDepth: 2, Deadline: deadline}
 		e.Run = func(prefix []int, expect []string) *sched.Exec {
 			x, _ := c14Exec(t, j.p, prefix, expect, false)
 			return x
@@ -245,7 +268,9 @@ func TestVerifC14(t *testing.T) {
 			R.AddKey(o)
 		}
 		R.Exhaustive = !e.TimedOut && e.Abandoned == 0 && e.Overruns == 0
-		if j.bound < 0 {
+		if j.delay > 0 {
+			R.Bound = fmt.Sprintf("all schedules with <= %d deviations of any kind from the default scheduler (%d alternatives cut by the bound)", j.delay, e.CutByBound)
+		} else if j.bound < 0 {
 			R.Bound = "all interleavings (unbounded preemptions)"
 		} else {
 			R.Bound = fmt.Sprintf("all schedules with <= %d preemptions (%d alternatives cut by the bound)", j.bound, e.CutByBound)
